@@ -652,6 +652,7 @@ func (fr *Frame) execInstr(in ssa.Instruction, st *State, reach *Term) (terminat
 			fr.setVal(i, scalar(tApp(SInt, "str_at", x.T, idx.T), i.Type()))
 			break
 		}
+		fr.guardCheck(i, x, false, st, reach)
 		v, ok, err := c.mapLookup(st, x.T, i.X.Type(), idx.T)
 		if err != nil {
 			fr.unsupported(i.Pos(), "lookup: %v", err)
@@ -672,6 +673,7 @@ func (fr *Frame) execInstr(in ssa.Instruction, st *State, reach *Term) (terminat
 		}
 	case *ssa.MapUpdate:
 		m := fr.val(i.Map)
+		fr.guardCheck(i, m, true, st, reach)
 		c.addObl(fr, &Obligation{Kind: "safety", Site: fmt.Sprintf("mapwrite@%s", fr.posShort(i.Pos())), Clause: "assignment to entry in nil map",
 			Guard: reach, Goal: tNot(tEq(m.T, tNull))})
 		if err := c.mapUpdate(st, m.T, i.Map.Type(), fr.val(i.Key).T, fr.val(i.Value)); err != nil {
@@ -704,6 +706,7 @@ func (fr *Frame) execInstr(in ssa.Instruction, st *State, reach *Term) (terminat
 	case *ssa.Slice:
 		fr.execSlice(i, st, reach)
 	case *ssa.Range:
+		fr.guardCheck(i, fr.val(i.X), false, st, reach)
 		fr.rangeIt[i] = &rangeState{x: fr.val(i.X), typ: i.X.Type()}
 		fr.setVal(i, &Val{Typ: i.Type(), T: c.sc.freshConst("iter", SV)})
 	case *ssa.Next:
@@ -753,6 +756,27 @@ func (fr *Frame) execInstr(in ssa.Instruction, st *State, reach *Term) (terminat
 	return false
 }
 
+// guardCheck emits the lock-discipline obligation for an access to a map that was read from a guarded field.
+func (fr *Frame) guardCheck(in ssa.Instruction, m *Val, write bool, st *State, reach *Term) {
+	c := fr.c
+	if m == nil || m.Prov == nil {
+		return
+	}
+	g := c.V.guards[m.Prov.Key]
+	if g == nil {
+		return
+	}
+	mu := tApp(SV, c.embFun(g.Struct, g.Mutex), m.Prov.Base)
+	held := tSelect(c.get(st, "G:held", ArrSort(SV, SInt)), mu)
+	goal := mk(SBool, "(>= %s 1)", held.S)
+	what := "read of " + strings.TrimPrefix(m.Prov.Key, "F:") + " requires " + g.Mutex.Name() + " held (R or W)"
+	if write {
+		goal = mk(SBool, "(= %s 2)", held.S)
+		what = "write to " + strings.TrimPrefix(m.Prov.Key, "F:") + " requires " + g.Mutex.Name() + " held for writing"
+	}
+	c.addObl(fr, &Obligation{Label: g.Label, Kind: "guarded-access", Site: fmt.Sprintf("access@%s", fr.posShort(in.Pos())), Clause: what, Guard: reach, Goal: goal, Where: fr.posShort(in.Pos())})
+}
+
 func firstFrames() string {
 	buf := make([]byte, 4096)
 	n := runtime.Stack(buf, false)
@@ -798,6 +822,9 @@ func (fr *Frame) execUnOp(i *ssa.UnOp, st *State, reach *Term) {
 			if lv.T.Sort == SV {
 				c.assumeExisting(st, lv.T, reach)
 			}
+		}
+		if x.Loc != nil && x.Loc.Kind == "field" && c.V.guards[x.Loc.Key] != nil {
+			v.Prov = &Prov{Key: x.Loc.Key, Base: x.Loc.Base}
 		}
 		fr.setVal(i, v)
 	case token.NOT:
